@@ -49,8 +49,13 @@ def gen_specs(rng, n, quick):
         if rng.random() < 0.3:
             # the same point set far from the origin (the properties are translation invariant)
             # (a multi-point start is triangulated by SciPy/Qhull, which loses its own precision at 1e5..1e6: moderate offsets there)
-            offs = [0.0, 1024.0, -256.0, 37.0, 1000.0] + ([] if family == "random_multi" else [131072.0, -1048576.0])
+            offs = [0.0, 1024.0, -256.0, 37.0, 1000.0] + ([] if family == "random_multi" else [131072.0, -131072.0])
             spec["offset"] = [rng.choice(offs) for _ in range(dim)]
+        if "offset" not in spec and rng.random() < 0.25:
+            # the same point set at another length scale (a power of two; the property has no length scale).  Very small
+            # scales only in 2-D: orientation() treats |det| < e^-50 as degenerate, an absolute cut (recorded under C12)
+            ks = list(range(-8, 9)) + ([-24, -20] if dim == 2 else [])
+            spec["scale"] = 2.0 ** rng.choice(ks)
         specs.append(spec)
     return specs
 
@@ -95,7 +100,7 @@ def run(ctx):
         rule="seeded insertion sequences into a real Triangulation: dims 2/3/4; families random, random with a multi-simplex SciPy "
              "start, lattice, centroid/edge-midpoint/facet-centroid/edge-extension, co-circular/co-spherical (exact integer points "
              "and rounded), mixed; deliberate duplicates; hints: none / located / arbitrary simplex / empty tuple; metric identity or "
-             "diagonal with axis ratio up to 100; 30% of the point sets translated by up to 1024 per axis; non-trivial = distinct op-line sequence",
+             "diagonal with axis ratio up to 100; 30% of the point sets translated by up to 1e6 per axis, 20% rescaled by 2^-8..2^8 (2-D down to 2^-24); non-trivial = distinct op-line sequence",
         samples=[r["lines"][:3] for r in results[:2]],
         evaluations=sum(len(r["lines"]) for r in results), distinct=len(corr.distinct),
         explanation="Every add_point is executed on the real object with all predicate calls recorded and replayed on the Lean model "
